@@ -1,9 +1,10 @@
 #!/bin/sh
-# tools/try_patch.sh <patch.diff> <ID> [tier]: apply a seeded change to /repo, run the check, undo.
-P="$1"; ID="$2"; TIER="${3:-quick}"
-cd /repo || exit 2
-if ! git apply --check "$P" 2>/dev/null; then echo "PATCH-DOES-NOT-APPLY $P"; exit 3; fi
-git apply "$P"
-cd /verif && ./check "$ID" --tier "$TIER" 2>&1 | grep -E "^VIOLATION|^MACHINERY|tier=" | cut -c1-400 | head -6
-git -C /repo checkout -- . 
-git -C /repo status --short | grep -v '^??' | head
+# tools/try_patch.sh <patch.diff> <ID> [tier]: apply a seeded change to a scratch worktree of /repo's HEAD, run the check against it
+# (VERIF_REPO), remove the worktree.  /repo itself is not touched.
+P="$(readlink -f "$1")"; ID="$2"; TIER="${3:-quick}"
+WT="/tmp/trypatch_$$"
+git -C /repo worktree add --detach "$WT" HEAD -q || exit 2
+if ! git -C "$WT" apply --check "$P" 2>/dev/null; then echo "PATCH-DOES-NOT-APPLY $P"; git -C /repo worktree remove --force "$WT"; exit 3; fi
+git -C "$WT" apply "$P"
+cd /verif && VERIF_REPO="$WT" ./check "$ID" --tier "$TIER" 2>&1 | grep -E "^VIOLATION|^MACHINERY|^KNOWN|tier=" | cut -c1-400 | head -8
+git -C /repo worktree remove --force "$WT"
